@@ -8,7 +8,7 @@
   "flags": [],
   "driver": "inline"
  },
- "detail": "C19: run_inline reported categories ['fix'] but the report session lists ['create', 'fix']\n__________________________________ test_dict ___________________________________\n\n    def test_dict():\n>       assert {\"a\": 1, \"c\": [29, 2]} == snapshot({\"a\": 2, \"b\": 3})\nE       AssertionError: assert {'a': 1, 'c': [29, 2]} == {'a': 2, 'b': 3}\nE         \nE         Differing items:\nE         {'a': 1} != {'a': 2}\nE         Left contains 1 more item:\nE         {'c': [29, 2]}\nE         Right contains 1 more item:\nE         {'b': 3}\nE         Use -v to get more diff\n\ntest_something.py:9: AssertionError\n==================================== PASSES ====================================\n------------ generated xml file: /tmp/bsess-out-yufay4ju/junit.xml -------------\n=========================== short test summary info ============================\nPASSED test_something.py::test_tuple\nERROR test_something.py::test_list - Failed: some snapshots in this test have...\nERROR test_something.py::test_dict - Failed: some snapshots in this test have...\nERROR test_something.py::test_tuple - Failed: your snapshot is missing one va...\nFAILED test_something.py::test_list - assert [1, 2, 3, 29] == [1, 3, 5]\nFAILED test_something.py::test_dict - AssertionError: assert {'a': 1, 'c': [2...\n==================== 2 failed, 1 passed, 3 errors in 2.45s ====================="
+ "detail": "C19: run_inline reported categories ['fix'] but the report session lists ['create', 'fix']\n__________________________________ test_dict ___________________________________\n\n    def test_dict():\n>       assert {\"a\": 1, \"c\": [29, 2]} == snapshot({\"a\": 2, \"b\": 3})\nE       AssertionError: assert {'a': 1, 'c': [29, 2]} == {'a': 2, 'b': 3}\nE         \nE         Differing items:\nE         {'a': 1} != {'a': 2}\nE         Left contains 1 more item:\nE         {'c': [29, 2]}\nE         Right contains 1 more item:\nE         {'b': 3}\nE         Use -v to get more diff\n\ntest_something.py:9: AssertionError\n==================================== PASSES ====================================\n------------ generated xml file: /tmp/bsess-out-_louh2fo/junit.xml -------------\n=========================== short test summary info ============================\nPASSED test_something.py::test_tuple\nERROR test_something.py::test_list - Failed: some snapshots in this test have...\nERROR test_something.py::test_dict - Failed: some snapshots in this test have...\nERROR test_something.py::test_tuple - Failed: your snapshot is missing one va...\nFAILED test_something.py::test_list - assert [1, 2, 3, 29] == [1, 3, 5]\nFAILED test_something.py::test_dict - AssertionError: assert {'a': 1, 'c': [2...\n==================== 2 failed, 1 passed, 3 errors in 2.23s ====================="
 }
 """
 
